@@ -328,3 +328,66 @@ def exact_integer_representations(tier, rng, rep):
                             rep.fail("matrix_is_image_of_its_word", f"{w[:3]}..{w[-3:]}: got {got.tolist()} (dtype {got.dtype}) expected {want.tolist()}", inp); return
                 rep.attempt("integer_enumeration_runs", inp, body)
                 rep.case(key=(nm, L, with_words), nontrivial=True, sample=inp if (nm, L) == ("a_loop", 40) else None)
+
+
+@bounded(P, "reassigned_generators", functions=F_ALL + ["geometry_tools/representation.py:Representation._set_generator", "geometry_tools/representation.py:Representation._word_value"],
+         note="history on one Representation object: enumerate, re-assign a generator (its inverse letter follows), enumerate again - with single-letter and multi-letter labels read as words; "
+              "the matrices returned after the re-assignment are the images under the NEW generators (oracle: letter-by-letter products of my own copies of the matrices)")
+def reassigned_generators(tier, rng, rep):
+    N = 40 if tier == 'thorough' else 10
+    rep.rule = ("free automaton on a, b and its even / triple versions (labels such as 'bA', 'AA'), random 3-state automata with labels from {a, b, A, B, aB, Ab, AA, bA}; enumerate to length 2..3, "
+                "assign rep['a'] (or rep['b']) a new matrix, enumerate again, then assign the inverse letter directly and enumerate once more; also rep[word] and elements before / after")
+    rep.bound = f"{N} rounds x 4 automata"
+    pool = ["a", "b", "A", "B", "aB", "Ab", "AA", "bA", "BB"]
+
+    def rmat():
+        while True:
+            M = rng.integers(-2, 3, size=(2, 2)).astype(float)
+            if abs(abs(np.linalg.det(M)) - 1) < 1e-9:
+                return M
+    for t in range(N):
+        autos = {"free": free_automaton_ab(), "free_even": free_automaton_ab().even_automaton(), "free_triple": free_automaton_ab().automaton_multiple(3)}
+        d = {}
+        for v in range(3):
+            labs = rng.choice(pool, size=int(rng.integers(1, 4)), replace=False)
+            d[v] = {str(l): int(rng.integers(0, 3)) for l in labs}
+        autos["random_word_labels"] = fsa.FSA(copy.deepcopy(d), [0])
+        for aname, A in autos.items():
+            mats = {"a": rmat(), "b": rmat()}
+            R = Representation()
+            R["a"], R["b"] = mats["a"].copy(), mats["b"].copy()
+            L = 2 if aname != "free" else 3
+            inp = {"automaton": aname, "graph_dict": {repr(k): {l: repr(w) for l, w in nb.items()} for k, nb in A.graph_dict.items()} if aname == "random_word_labels" else aname}
+
+            def compare(stage):
+                ms, ws = R.automaton_accepted(A, L, with_words=True, edge_words=True)
+                for Mx, w in zip(ms, ws):
+                    want = image(mats, w)
+                    if not np.all(np.abs(np.asarray(Mx, dtype=float) - want) <= 1e-9 * (1 + np.max(np.abs(want)))):
+                        rep.fail("matrix_is_image_of_its_word", f"{stage}: word {w!r}: returned {np.asarray(Mx).tolist()}, image under the current generators {want.tolist()}", {**inp, "stage": stage, "word": w}); return False
+                for w in ("bA", "AA", "AB", "aB", "ab"):
+                    if not np.all(np.abs(np.asarray(R[w], dtype=float) - image(mats, w)) <= 1e-9 * (1 + np.max(np.abs(image(mats, w))))):
+                        rep.fail("matrix_is_image_of_its_word", f"{stage}: rep[{w!r}] is not the image under the current generators", {**inp, "stage": stage, "word": w}); return False
+                return True
+
+            def body():
+                if not compare("before any re-assignment"):
+                    return
+                g = "a" if t % 2 == 0 else "b"
+                mats[g] = rmat()
+                R[g] = mats[g].copy()
+                if not compare(f"after rep[{g!r}] = M"):
+                    return
+                g2 = "b" if g == "a" else "a"
+                newinv = rmat()
+                mats[g2] = np.linalg.inv(newinv)
+                R[g2.upper()] = newinv.copy()
+                compare(f"after rep[{g2.upper()!r}] = M")
+            rep.attempt("enumeration_runs", inp, body)
+            rep.case(key=(t, aname), nontrivial=True, sample=inp if (t, aname) == (0, "free_even") else None)
+            if len(rep.failures) >= 3:
+                return
+
+
+def free_automaton_ab():
+    return fsa.free_automaton(["a", "b"])
